@@ -148,7 +148,7 @@ impl Sched {
         let Some(p) = st.processes.get(&pid) else {
             return;
         };
-        if let Some((_path, args, envs)) = p.last_exec() {
+        if let Some((_path, args, envs)) = p.last_exec().clone() {
             self.execed.borrow_mut().insert(pid.0);
             let args: Vec<String> = args.iter().map(|a| a.to_string_lossy().into_owned()).collect();
             let mut envs: Vec<String> = envs.iter().map(|a| a.to_string_lossy().into_owned()).collect();
@@ -167,6 +167,7 @@ impl Sched {
                 .cloned()
                 .collect();
             drop(st);
+            trace(pid, format!("execpath:{}", _path.to_string_lossy()));
             trace(pid, format!("exec[{}]", shown.join(",")));
             if args.first().map(|s| s.as_str()) == Some("ext") {
                 trace(pid, format!("fds exec {}", fd_table(&state, pid)));
@@ -288,6 +289,12 @@ thread_local! {
 
 fn trace(pid: Pid, text: String) {
     RUN.with(|r| r.borrow_mut().trace.push(TraceEntry { pid: pid.0, text }));
+}
+
+/// Appends a marker to the trace on behalf of the calling shell process.
+pub fn probe_trace(env: &Env<VS>, text: &str) {
+    use yash_env::system::GetPid;
+    trace(env.system.getpid(), text.to_string());
 }
 
 fn with_suppressed_taps<T>(f: impl FnOnce() -> T) -> T {
